@@ -142,5 +142,19 @@ func (w *world) alphabet(profile string) []letter {
 		ls = append(ls, letter{Name: "2tx: transfer+burn", Txs: []txT{txs[0], txs[10]}})
 		ls = append(ls, envLetters(txs[0])...)
 	}
+	if w.opts.Runtime {
+		for _, t := range w.runtimeTxs() {
+			switch t.Name {
+			case "submitmsg(a0,fee1,tokens2)", "submitmsg(a1,fee3,tokens0)", "runtime-update(e0,max-in-msgs+1)", "runtime-update(e0,owner->e1)", "runtime-new(e1)", "executor-commit(n0,empty)", "roothash-evidence(a0,empty)":
+				ls = append(ls, letter{Name: t.Name, Txs: []txT{t}})
+			}
+		}
+		for _, t := range w.registryTxs() {
+			switch t.Name {
+			case "node0-renew(exp6)", "node2 roles=validator->observer", "node1 expired descriptor(exp1)":
+				ls = append(ls, letter{Name: t.Name, Txs: []txT{t}})
+			}
+		}
+	}
 	return ls
 }
